@@ -205,6 +205,16 @@ class Gauge:
                 return (None if any(x[0] != 0 for x in gs) else 0, MIXED)
             if isinstance(fn, ast.Name):
                 b = self.fi.resolve(fn.id)
+                if b is not None and b.kind == "func" and b.target.cls is None and getattr(self, "_depth", 0) < 4:
+                    # a small private helper of the package (`_unit(v)` = v.normalized()): read through its return expression
+                    from ..astutil import inline_module_calls
+                    inl = inline_module_calls(self.fi, e, depth=1)
+                    if not (isinstance(inl, ast.Call) and txt(inl) == txt(e)):
+                        self._depth = getattr(self, "_depth", 0) + 1
+                        try:
+                            return self.g(inl)
+                        finally:
+                            self._depth -= 1
                 if b is not None and b.kind == "class" and b.target.name in ("Line", "Plane", "HalfLine"):
                     # an object built from a direction denotes the same set for any non-zero multiple of it
                     return (0, EVEN)
@@ -492,6 +502,9 @@ def r81_r83(ctx, res):
         sm = eng.summary(m, (S(cname), S(cname)))
         rets = [r for r in walk_local(m.node) if isinstance(r, ast.Return) and sm is not None and id(r) in sm.reached]
         a, b = m.params[:2]
+        from ..astutil import identity_fast_path_returns
+        fast = identity_fast_path_returns(m.node, a, b)  # `if other is self: return True` does not change the relation
+        rets = [r for r in rets if id(r) not in fast]
         want = {"hash(%s) == hash(%s)" % (a, b), "hash(%s) == hash(%s)" % (b, a)}
         ok = len(rets) == 1 and txt(rets[0].value) in want
         res.ob("R8.3", m.where(), "%s.__eq__ is hash equality" % cname, ok, "returns `%s`" % (txt(rets[0].value) if rets else "-"))
